@@ -57,7 +57,7 @@ add("C05", ["v_diff"], ["hdr_"],
     level_text="diff_schema(a,b) is None <==> wire_equiv(a,b) for all schema trees of the serialisable fragment (Verus, unbounded, real function text); header gate (magic, library-format version, data version, before any payload byte) by Kani for all header values.",
     level_note="Trait method tables (diff_abi_def) abstract in the Verus unit. Pair matrix over concrete types not run.",
     technique="Verus contracts + loop invariants on extracted diff_schema family; Kani header harnesses", trusted_base=TB)
-add("C06", ["v_codec"], ["mal_"],
+add("C06", ["v_codec", "v_schemacodec"], ["mal_"],
     level_text="For fixed-size targets every input of every length up to the encoded size is covered (Kani, complete): no panic, no overflow, no memory-safety failure, returned values valid (bool/char bit patterns, enum tags), consumed length consistent; bulk paths of Vec/array/ArrayVec with arbitrary declared lengths; SystemTime/Duration arithmetic.",
     level_note="Variable-size targets (String, maps, schema bytes, BitVec) are not covered; stack exhaustion not decidable.",
     technique="Kani harnesses over fully symbolic input bytes", trusted_base=TB)
@@ -81,9 +81,9 @@ add("C11", ["v_layout"], ["abi_callee_ref", "abi_caller_ref"],
     level_text="layout_compatible(a,b) ==> same_layout(a,b) and arg_layout_compatible == Ok(true) ==> identical native layout or trait-like, for all schema pairs (Verus, unbounded); an argument travels as a pointer iff its mask bit is set (Kani on trampolines).",
     level_note="Mask computation in analyze_and_create and truthfulness of recorded layout facts not covered; other compilers not decidable here.",
     technique="Verus contracts on extracted layout_compatible family", trusted_base=TB)
-add("C13", ["v_diff"], [],
-    level_text="Reflexivity and completeness of schema comparison as lemmas over the diff_schema <==> wire_equiv contract (Verus).",
-    level_note="Schema persistence (write/read at format versions 0,1,2) not yet covered.",
+add("C13", ["v_diff", "v_schemacodec"], [],
+    level_text="Schema::serialize / Schema::deserialize and all component codecs verified against enc_schema / dec_schema specifications for all schema trees and all inputs (Verus, unbounded, real function text; termination included); reflexivity and completeness of schema comparison as lemmas over the diff_schema <==> wire_equiv contract.",
+    level_note="Method tables (AbiTraitDefinition codec) assumed; format-0 reading pinned to the dec specification only (no independent old file); Vec/String extensionality assumed.",
     technique="Verus lemmas over function contracts", trusted_base=TB)
 add("C17", ["v_introspect"], [],
     level_text="total_index(i) is Some <==> i < total_len() for every well-formed result (Verus, unbounded, real function text).",
